@@ -280,47 +280,48 @@ mod hooked {
             println!("{}", hook::opcode_signatures());
             return;
         }
-        let input: Box<dyn BufRead> = if args.len() > 1 {
+        let input: Box<dyn BufRead + Send> = if args.len() > 1 {
             Box::new(std::io::BufReader::new(std::fs::File::open(&args[1]).expect("open input")))
         } else {
             Box::new(std::io::BufReader::new(std::io::stdin()))
         };
-        let stdout = std::io::stdout();
-        for line in input.lines() {
-            let line = line.expect("read");
-            if line.trim().is_empty() {
-                continue;
-            }
-            let sc: Value = match serde_json::from_str(&line) {
-                Ok(v) => v,
-                Err(e) => {
-                    eprintln!("bad scenario line: {e}");
-                    std::process::exit(2);
-                }
-            };
-            let id = sc.get("id").cloned().unwrap_or(Value::Null);
-            let res = match isolated(move || {
-                let r = std::panic::catch_unwind(std::panic::AssertUnwindSafe(|| run_scenario(&sc)));
-                match r {
-                    Ok(v) => v,
-                    Err(p) => {
-                        let loc = LAST_PANIC.with(|c| c.borrow().clone());
-                        hook::set_code_block_log(false);
-                        hook::set_depth_events(0);
-                        json!({"status": "panic", "panic": format!("{} @ {}", panic_message(&p), loc)})
+        // One worker thread with a large stack handles all scenarios; a panic is caught per scenario
+        // (a stack overflow or abort kills the process: the driver attributes it to the unanswered scenario).
+        let worker = std::thread::Builder::new()
+            .stack_size(1 << 30)
+            .spawn(move || {
+                let stdout = std::io::stdout();
+                for line in input.lines() {
+                    let line = line.expect("read");
+                    if line.trim().is_empty() {
+                        continue;
                     }
+                    let sc: Value = match serde_json::from_str(&line) {
+                        Ok(v) => v,
+                        Err(e) => {
+                            eprintln!("bad scenario line: {e}");
+                            std::process::exit(2);
+                        }
+                    };
+                    let id = sc.get("id").cloned().unwrap_or(Value::Null);
+                    let r = std::panic::catch_unwind(std::panic::AssertUnwindSafe(|| run_scenario(&sc)));
+                    let mut res = match r {
+                        Ok(v) => v,
+                        Err(p) => {
+                            let loc = LAST_PANIC.with(|c| c.borrow().clone());
+                            hook::set_code_block_log(false);
+                            hook::set_depth_events(0);
+                            json!({"status": "panic", "panic": format!("{} @ {}", panic_message(&p), loc)})
+                        }
+                    };
+                    res["id"] = id;
+                    let mut lock = stdout.lock();
+                    serde_json::to_writer(&mut lock, &res).expect("write");
+                    lock.write_all(b"\n").expect("write");
+                    lock.flush().expect("flush");
                 }
-            }) {
-                Ok(mut v) => {
-                    v["id"] = id;
-                    v
-                }
-                Err(m) => json!({"id": id, "status": "panic", "panic": m}),
-            };
-            let mut lock = stdout.lock();
-            serde_json::to_writer(&mut lock, &res).expect("write");
-            lock.write_all(b"\n").expect("write");
-            lock.flush().expect("flush");
-        }
+            })
+            .expect("spawn");
+        worker.join().expect("worker");
     }
 }
